@@ -6,7 +6,7 @@ import os
 import re
 import shutil
 
-from common import NATIVE_TARGET, Undecided, env_offline, run
+from common import BINS_TARGET, NATIVE_TARGET, Undecided, env_offline, run
 
 RUSTFLAGS = "--cfg verif_native -Awarnings"
 
@@ -62,6 +62,34 @@ def _build_locked(scratch, package, cmd, log):
     return private
 
 
+def build_bins(scratch, log):
+    """Build the real command line tools of the scratch copy (hulc2model, thor) WITHOUT the verification cfg: the
+    appended hook lines are inert, the binaries are the repository's code as it ships. Private copies go to
+    <scratch.base>/bin."""
+    cmd = ["cargo", "build", "--offline", "-p", "hulc2model", "-p", "bemodel", "--bins"]
+    log("tools build: " + " ".join(cmd))
+    os.makedirs(BINS_TARGET, exist_ok=True)
+    lock = open(os.path.join(BINS_TARGET, ".verif-build.lock"), "w")
+    fcntl.flock(lock, fcntl.LOCK_EX)
+    try:
+        env = env_offline({"CARGO_TARGET_DIR": BINS_TARGET, "RUSTFLAGS": "-Awarnings", "CARGO_PROFILE_DEV_DEBUG": "0"})
+        rc, out, secs, to = run(cmd, cwd=scratch.path, env=env, timeout=1800)
+        if rc != 0:
+            raise Undecided("the command line tools of the scratch copy do not build:\n" + out[-1200:])
+        bindir = os.path.join(scratch.base, "bin")
+        os.makedirs(bindir, exist_ok=True)
+        for b in ("hulc2model", "thor"):
+            src = os.path.join(BINS_TARGET, "debug", b)
+            if not os.path.exists(src):
+                raise Undecided(f"lost anchor: binary {b} was not produced by {' '.join(cmd)}")
+            shutil.copy2(src, os.path.join(bindir, b))
+        log(f"tools build: {secs:.1f}s -> {bindir}")
+        return bindir
+    finally:
+        fcntl.flock(lock, fcntl.LOCK_UN)
+        lock.close()
+
+
 def run_obligation(scratch, exe, test, tier, jobs, timeout_s, log, replay=None, max_cases=None, progress=False):
     """Run one #[test] obligation of the native enumerator. Returns the parsed summary dict, with
     'crashed'/'timed_out' flags when the process did not finish normally."""
@@ -71,7 +99,10 @@ def run_obligation(scratch, exe, test, tier, jobs, timeout_s, log, replay=None, 
     for p in [out_file]:
         if os.path.exists(p):
             os.remove(p)
-    extra = {"VERIF_OUT": out_file, "VERIF_TIER": tier, "VERIF_JOBS": str(jobs)}
+    extra = {"VERIF_OUT": out_file, "VERIF_TIER": tier, "VERIF_JOBS": str(jobs),
+             "VERIF_BIN_DIR": os.path.join(scratch.base, "bin"), "VERIF_TMP": os.path.join(scratch.base, "tmp"),
+             "VERIF_SEED": os.environ.get("VERIF_SEED", "0")}
+    os.makedirs(extra["VERIF_TMP"], exist_ok=True)
     if progress:
         extra["VERIF_PROGRESS"] = prog
     if replay is not None:
